@@ -42,7 +42,98 @@ def _cases(rng, n):
     for a, b in [(-7, 2), (7, -2), (-7, -2), (-8, 2), (0, 5), (5, 7), (-1, 10 ** 12)]:
         reqs.append(("bits", {"a": a, "b": b}))
         want.append({"fdiv": str(a // b), "fmod": str(a % b)})
+    _cases_t2(rng, n, reqs, want)
     return reqs, want
+
+
+def _cases_t2(rng, n, reqs, want):
+    """--- T2: iterators / islice, bounded while, loops that raise, reduce / max / min, sum of lists, Counter semantics, "{0:b}".
+    Expected values come from the CPython objects themselves (itertools.islice, functools.reduce, collections.Counter, …)."""
+    import functools
+    import itertools
+    from collections import Counter
+
+    def ints(lo=-3, hi=9, k=7):
+        return [rng.randrange(lo, hi) for _ in range(rng.randrange(0, k))]
+
+    def S(v):
+        return None if v is None else str(v)
+    for _ in range(n):
+        xs, k = ints(), rng.choice([0, 1, 2, 3, 5, 9, -1, -4])
+        it = iter(xs)
+        try:
+            taken = list(itertools.islice(it, k))
+            w = [taken, list(it)]
+        except ValueError:
+            w = None
+        reqs.append(("t2_islice", {"xs": xs, "k": k})); want.append(("raw", w))
+    for _ in range(n // 2):
+        m, d, fuel = rng.randrange(-3, 30), rng.randrange(1, 6), rng.randrange(0, 12)
+        c, tests, cur = 0, 0, m
+        while True:
+            tests += 1
+            if tests > fuel:
+                w = None
+                break
+            if not cur > 0:
+                w = [str(cur), str(c)]
+                break
+            cur -= d
+            c += 1
+        reqs.append(("t2_while", {"n": m, "d": d, "fuel": fuel})); want.append(("raw", w))
+    for _ in range(n):
+        xs = ints(-1 if rng.random() < 0.4 else 0, 9)
+        ms = [rng.choice([0, 1, 2, 3, -1]) if rng.random() < 0.2 else rng.randrange(0, 4) for _ in range(rng.randrange(0, 5))]
+
+        def body(x):
+            if x < 0:
+                raise ValueError
+            return x
+        try:
+            acc = 1
+            for x in xs:
+                acc = 2 * acc + body(x)
+            fo = str(acc)
+        except ValueError:
+            fo = None
+        try:
+            mo = [body(x) * body(x) for x in xs]
+        except ValueError:
+            mo = None
+        it = iter(xs)
+        try:
+            ma = [sum(itertools.islice(it, m)) for m in ms]
+            ma = [ma, list(it)]
+        except ValueError:
+            ma = None
+        reqs.append(("t2_loops", {"xs": xs, "ms": ms})); want.append({"fold": fo, "map": mo, "accum": ma})
+    for _ in range(n):
+        xs = ints(-20, 20)
+        try:
+            r = str(functools.reduce(lambda a, b: 3 * a - b, xs))
+        except TypeError:
+            r = None
+        reqs.append(("t2_reduce", {"xs": xs}))
+        want.append({"reduce": r, "max": S(max(xs)) if xs else None, "min": S(min(xs)) if xs else None})
+    for _ in range(n // 2):
+        xss = [ints() for _ in range(rng.randrange(0, 5))]
+        reqs.append(("t2_sumlists", {"xss": xss})); want.append(("raw", sum(xss, start=[])))
+    keys = ["a", "b", "c", "", "00", "01"]
+    for _ in range(n):
+        d = {k: rng.randrange(-3, 9) for k in rng.sample(keys, rng.randrange(0, 5))}
+        ops = [[rng.choice(["add", "add", "set"]), rng.choice(keys), rng.randrange(-4, 9)] for _ in range(rng.randrange(0, 7))]
+        c = Counter(d)
+        for kind, k, v in ops:
+            if kind == "add":
+                c[k] += v
+            else:
+                c[k] = v
+        probes = [rng.choice(keys + ["zz"]) for _ in range(3)]
+        gets = [str(c[k]) for k in probes]  # reading a missing key answers 0 and does not insert it
+        reqs.append(("t2_counter", {"d": [[k, v] for k, v in d.items()], "ops": ops, "probes": probes}))
+        want.append({"items": [[k, str(v)] for k, v in dict(c).items()], "gets": gets})
+    for k in [0, 1, 2, 3, 7, 8, 255, 256, 2 ** 64, -1, -5] + [rng.randrange(0, 2 ** 40) for _ in range(n // 4)]:
+        reqs.append(("t2_formatb", {"n": common.rat(k)})); want.append("{0:b}".format(k))
 
 
 def run(seed=0, n=120):
@@ -55,6 +146,11 @@ def run(seed=0, n=120):
     got = drv.run(reqs)
     bad = []
     for (op, payload), w, g in zip(reqs, want, got):
+        if op.startswith("t2_") and not isinstance(w, str):  # --- T2: structured answers compared after normalising ints
+            w = w[1] if isinstance(w, tuple) else w
+            if _norm_t2(g) != _norm_t2(w):
+                bad.append(f"{op} {payload}: CPython {w!r}, prelude {g!r}")
+            continue
         if isinstance(w, dict):
             if not isinstance(g, dict):
                 bad.append(f"{op} {payload}: driver {g!r}")
@@ -67,6 +163,18 @@ def run(seed=0, n=120):
         elif g != w:
             bad.append(f"{op} {payload}: CPython {w!r}, prelude {g!r}")
     return len(reqs), bad
+
+
+def _norm_t2(v):
+    if isinstance(v, bool) or v is None:
+        return v
+    if isinstance(v, int):
+        return str(v)
+    if isinstance(v, list):
+        return [_norm_t2(x) for x in v]
+    if isinstance(v, dict):
+        return {k: _norm_t2(x) for k, x in v.items()}
+    return v
 
 
 if __name__ == "__main__":
